@@ -266,7 +266,15 @@ def rule_r5(ctx) -> List[R.Inst]:
         line = M.classes[sc].node.lineno
         missing = [p for p in props if p not in cols]
         key = f"{c.split('.')[-1]}.Stacker"
-        if missing:
+        import json as _json, pathlib as _pl
+        frozen = _json.loads((_pl.Path(__file__).resolve().parent.parent / "tables" / "stack_props.json").read_text())["props"]
+        lost = sorted(set(frozen.get(c.split(".")[-1], [])) - set(props))
+        if lost:
+            insts.append(R.viol("C12.R5", key, file, line,
+                                f"documented stacked propert{'ies' if len(lost) > 1 else 'y'} {lost} no longer generated for "
+                                f"{c.split('.')[-1]}.Stacker: 'stack.{lost[0]} = v' now sets an attribute on the Stacker object and "
+                                f"writes nothing to the lists", construct=f"{key} lacks {lost}"))
+        elif missing:
             insts.append(R.viol("C12.R5", key, file, line,
                                 f"stackable name(s) {missing} are not a field of any list of {c.split('.')[-1]}",
                                 construct=f"{key} {missing}"))
@@ -325,6 +333,25 @@ def rule_r6(ctx) -> List[R.Inst]:
     insts.append(R.ok("C12.R6", "MapSet.stack", file, line, idiom="[m.stack() for m in self] in chart order") if good else
                  R.viol("C12.R6", "MapSet.stack", file, line, "per-chart stackers are not built for every chart in chart order",
                         construct=unparse(rets[0].value)[:160] if rets else "no return"))
+    q = MAPSET_STACKER + ".__getitem__"
+    fn = M.fn(q)
+    file, line = fn_loc(M, q)
+    item_p = params_of(fn.node)[1]
+    rets = returns_of(fn.node)
+    good = False
+    why = "the stacked frame does not have one row per chart, in chart order"
+    if len(rets) == 1:
+        lcs = [n for n in ast.walk(rets[0].value) if isinstance(n, (ast.ListComp, ast.GeneratorExp))]
+        if len(lcs) == 1 and len(lcs[0].generators) == 1:
+            g = lcs[0].generators[0]
+            if g.ifs:
+                why = (f"charts are filtered out of the stacked frame ({unparse(g.ifs[0])}) while __setitem__ pairs rows with ALL "
+                       f"charts by position: rows shift to the wrong chart")
+            elif unparse(g.iter) == "self.stackers" and unparse(lcs[0].elt) == f"{unparse(g.target)}[{item_p}]":
+                good = True
+    insts.append(R.ok("C12.R6", "MapSet.Stacker.__getitem__", file, line, idiom="one row per stacker: [s[item] for s in self.stackers]") if good else
+                 R.viol("C12.R6", "MapSet.Stacker.__getitem__", file, line, why,
+                        construct=unparse(rets[0].value)[:160] if rets else "no return"))
     q = MAPSET_STACKER + ".__setitem__"
     fn = M.fn(q)
     file, line = fn_loc(M, q)
@@ -367,7 +394,7 @@ SPECS = [
     RuleSpec("C12.R3", rule_r3, 3, "A8", "every write to the stack is followed by the write-back on all paths"),
     RuleSpec("C12.R4", rule_r4, 1, "A2", "write-back projects each list's own columns and positional slice"),
     RuleSpec("C12.R5", rule_r5, 8, "M0", "stackable names resolve; stack() uses the most-derived Stacker and the type filter"),
-    RuleSpec("C12.R6", rule_r6, 2, "A5", "mapset stack: chart order, row-wise broadcast"),
+    RuleSpec("C12.R6", rule_r6, 3, "A5", "mapset stack: chart order, row-wise broadcast"),
     RuleSpec("C12.R7", rule_r7, 1, "A3", "write-back writes the stacked lists' frames and nothing else"),
 ]
 
